@@ -60,12 +60,8 @@ func DecimalGroups(p, s int) (widths []int, intGroups int) {
 
 // DecimalSize is the number of bytes a DECIMAL(p,s) value occupies.
 func DecimalSize(p, s int) int {
-	n := 0
-	ws, _ := DecimalGroups(p, s)
-	for _, w := range ws {
-		n += decLeftoverBytes[w]
-	}
-	return n
+	intg := p - s
+	return intg/9*4 + decLeftoverBytes[intg%9] + s/9*4 + decLeftoverBytes[s%9]
 }
 
 func decCheckDigits(what, d string, n int) {
@@ -106,14 +102,18 @@ func DecimalEncode(p, s int, negative bool, intDigits, fracDigits string) []byte
 	if decAllZero(intDigits) && decAllZero(fracDigits) {
 		negative = false
 	}
-	all := intDigits + fracDigits
-	widths, _ := DecimalGroups(p, s)
+	intg := p - s
 	b := make([]byte, 0, DecimalSize(p, s))
-	at := 0
-	for _, w := range widths {
-		b = decGroup(b, all[at:at+w])
-		at += w
+	// integer part: leftover most significant digits, then full groups
+	b = decGroup(b, intDigits[:intg%9])
+	for at := intg % 9; at < intg; at += 9 {
+		b = decGroup(b, intDigits[at:at+9])
 	}
+	// fraction: full groups, then the leftover least significant digits
+	for at := 0; at+9 <= s; at += 9 {
+		b = decGroup(b, fracDigits[at:at+9])
+	}
+	b = decGroup(b, fracDigits[s-s%9:])
 	if negative {
 		for i := range b {
 			b[i] = ^b[i]
